@@ -91,9 +91,9 @@ func VerifC06_Requests() {
 // its own on the embedded type) for this harness.
 type vCapCmd struct{ c *getDCMICapabilitiesInfoCmd }
 
-func (v vCapCmd) Name() string                 { return "Get DCMI Capabilities Info" }
-func (v vCapCmd) Operation() *ipmi.Operation   { return v.c.Operation() }
-func (v vCapCmd) RemoteLUN() ipmi.LUN          { return v.c.RemoteLUN() }
+func (v vCapCmd) Name() string               { return "Get DCMI Capabilities Info" }
+func (v vCapCmd) Operation() *ipmi.Operation { return v.c.Operation() }
+func (v vCapCmd) RemoteLUN() ipmi.LUN        { return v.c.RemoteLUN() }
 func (v vCapCmd) Request() gopacket.SerializableLayer {
 	return (*GetDCMICapabilitiesInfoReq)(v.c)
 }
